@@ -299,6 +299,10 @@ class RemoteWorker(Worker, metaclass=RemoteWorkerMeta):
                 if force:
                     self._child.terminate()
                     self._child.join(timeout)
+                    if self._child.is_alive() and hasattr(self._child, 'kill'):
+                        # SIGTERM is not acted upon by a stopped process (and can be blocked or ignored): escalate
+                        self._child.kill()
+                        self._child.join(timeout)
                     try:
                         send_msg(self._socket, (False, None), comment='data: force terminate result')
                         self._socket.close()
